@@ -93,3 +93,28 @@ def rule_raw_memory(rep, fb):
             else:
                 r.fail(key, "%s:%d" % (f["file"], f["line"]), "raw %s in %s" % (what, f["qual"]))
     return r.done()
+
+
+def rule_width(rep, fb, select=None, floor=20, name="WIDTH.implicit-narrowing"):
+    """implicit (compiler-inserted) integral narrowing 64 -> 32/16/8 bits in libawkward's non-template code"""
+    from ..core import load_table
+    r = rep.rule(name, "no implicit integral narrowing (a compiler-inserted 64 -> 32/16/8-bit conversion, e.g. passing an int64_t length to int abs(int)) of lengths, positions or data values in "
+                 "libawkward's non-template functions, outside the tabled conversions that are by design", floor=floor)
+    table = load_table("width_exceptions.json")
+    for f in fb.lib_funcs():
+        if select is not None and not select(f):
+            continue
+        cnt = {}
+        for n in find_all(f["body"], lambda n: n[0] == "narrow"):
+            txt = unparse(cexpr(n[3]))[:50]
+            cnt[txt] = cnt.get(txt, 0) + 1
+            key = "%s:%s->%s#%d" % (f["qual"], txt, n[2], cnt[txt])
+            tk = "%s:%s->%s" % (f["qual"], txt, n[2])
+            tk2 = "%s:*->%s" % (f["qual"], n[2])
+            reason = table.get(tk) or table.get(tk2) or table.get(f["qual"] + ":*")
+            if reason:
+                r.excepted(tk, reason)
+                r.ok(key)
+            else:
+                r.fail(key, "%s:%d" % (f["file"], f["line"]), "%s implicitly narrows '%s' (%s bits) to %s" % (f["qual"], txt, n[1], n[2]))
+    return r.done()
